@@ -94,13 +94,28 @@ pub fn blob_list<T: Read + Seek>(rd: &E57Reader<T>, free: &[(u64, u64)]) -> Vec<
     out
 }
 
+/// Only the setters of options that differ from the documented defaults are called, like a caller
+/// would: an iterator with default options calls none, so state left behind by an earlier iterator shows.
 fn set_opts<T: Read + Seek>(it: &mut e57::PointCloudReaderSimple<T>, o: Opts) {
-    it.spherical_to_cartesian(o.s2c);
-    it.cartesian_to_spherical(o.c2s);
-    it.intensity_to_color(o.i2c);
-    it.normalize_intensity(o.ni);
-    it.normalize_color(o.nc);
-    it.apply_pose(o.pose);
+    let d = Opts::from_bits(Opts::DEFAULT_BITS);
+    if o.s2c != d.s2c {
+        it.spherical_to_cartesian(o.s2c);
+    }
+    if o.c2s != d.c2s {
+        it.cartesian_to_spherical(o.c2s);
+    }
+    if o.i2c != d.i2c {
+        it.intensity_to_color(o.i2c);
+    }
+    if o.ni != d.ni {
+        it.normalize_intensity(o.ni);
+    }
+    if o.nc != d.nc {
+        it.normalize_color(o.nc);
+    }
+    if o.pose != d.pose {
+        it.apply_pose(o.pose);
+    }
 }
 
 pub fn run_op<T: Read + Seek>(rd: &mut E57Reader<T>, op: &ReadOp, free: &[(u64, u64)]) -> OpOut {
@@ -235,7 +250,7 @@ pub fn gen_op(s: &mut Src) -> ReadOp {
         0 => ReadOp::Xml,
         1 => ReadOp::Descriptors,
         2 => ReadOp::Raw { cloud: s.byte(), take: take(s) },
-        3 => ReadOp::Simple { cloud: s.byte(), opts: s.below(64) as u8, take: take(s) },
+        3 => ReadOp::Simple { cloud: s.byte(), opts: if s.chance(1, 3) { Opts::DEFAULT_BITS } else { s.below(64) as u8 }, take: take(s) },
         4 => ReadOp::Blob { which: s.byte() },
         _ => ReadOp::BlobInto { which: s.byte(), room: if s.flag() { s.below(9) as u16 } else { s.below(3000) as u16 }, mode: s.below(3) as u8 },
     }
